@@ -335,7 +335,7 @@ func TestVerif_HealthSched(t *testing.T) {
 		b.Emit("Final", "cb", cbs.Load())
 		return envFault
 	}
-	zzverif.Parallel(len(scns), 24, func(sn int) {
+	zzverif.Parallel(len(scns), 40, func(sn int) { // mostly waiting (callbacks, timeouts), not computing
 		for try := 0; ; try++ {
 			b := tr.Block()
 			fault := runOne(sn, b)
